@@ -226,6 +226,49 @@ pub fn run(id: &'static str, tier: Tier, seed: u64) -> i32 {
         total.merge(st);
     }
     let _ = Step::Fault(0);
+    if c18 {
+        // vars() when the caller carries on after an error item whose call was made (a virtual
+        // signal that fails for one particular answer): explicit-state exploration over the answers
+        use crate::e1::*;
+        let sigs = vec![Sig::inp("P0", 16, 0), Sig::inp("P1", 16, 0), Sig::out("Q", 16), Sig::out("i", 16)];
+        let rowv = |e: Expr| Stmt::Row(vec![Entry::Paren(e), Entry::Lit(0, Radix::Dec), Entry::X]);
+        let atoms = vec![rowv(name("i")), rowv(lit(1)), Stmt::Let("k".into(), lit(7)), Stmt::Let("i".into(), lit(5)), Stmt::Repeat(lit(2), vec![Entry::Paren(name("n")), Entry::Lit(0, Radix::Dec), Entry::X])];
+        let blocks = vec![Block::Loop("i".into(), lit(2)), Block::Loop("k".into(), lit(1))];
+        let menu = vec![MenuItem::ans(vec![("Q".into(), V::Num(0)), ("i".into(), V::Num(202))]), MenuItem::ans(vec![("Q".into(), V::Num(2)), ("i".into(), V::Num(202))])];
+        let mut cases = vec![];
+        for k in 1..=3 {
+            let sp = ForestSpace::new(atoms.clone(), blocks.clone(), 2, k);
+            for idx in 0..sp.count(k) {
+                let mut body = vec![Stmt::Declare("V".into(), bin(BinOp::Div, lit(8), name("Q")))];
+                body.extend(sp.unrank(k, idx));
+                let prog = Program { header: vec!["P0".into(), "P1".into(), "Q".into()], body };
+                if !crate::model::lines(&prog).iter().any(|l| l.row.is_some()) {
+                    continue;
+                }
+                let mut c = Case::new(&format!("continue after a failing virtual signal, K={k} #{idx}"), prog, sigs.clone(), true, menu.clone(), menu.clone(), 14);
+                c.continue_after_call_errors = true;
+                c.collect_vars = true;
+                cases.push(c);
+            }
+        }
+        let oracle: Oracle = std::sync::Arc::new(|seen: &Seen<'_>, st: &mut Stats| {
+            let k = seen.item?;
+            let (Some(ri), Some(oi)) = (seen.reference.items.get(k), seen.obs.items.get(k)) else { return None };
+            if matches!(ri, RefItem::VirtErr(_)) {
+                st.witness("error_item_then_caller_carries_on");
+            }
+            let proj = Proj { input_values: true, expected: false, output: false, checked_kind: false, lines: false, vars: true, verdicts: false };
+            item_mismatch(ri, oi, proj, None, seen.obs.vars.get(k)).map(|m| (classify(&m), format!("first difference at item {k}: {m}")))
+        });
+        let res = explore(cases, oracle, true, &deadline);
+        let mut st = res.stats;
+        st.extra.insert("e1_part_states".into(), json!(st.states));
+        st.extra.insert("e1_part_transitions".into(), json!(st.transitions));
+        st.states = 0;
+        st.transitions = 0;
+        st.traces = 0;
+        total.merge(st);
+    }
     let required: Vec<&'static str> = vec![
         "loop_bound_zero",
         "loop_bound_negative",
@@ -243,6 +286,10 @@ pub fn run(id: &'static str, tier: Tier, seed: u64) -> i32 {
         "repeat",
         "permuted_or_bidirectional_signal_list",
     ];
+    let mut required = required;
+    if c18 {
+        required.push("error_item_then_caller_carries_on");
+    }
     let meta = CheckMeta {
         id,
         tier,
